@@ -30,8 +30,70 @@ scipy.sparse.csgraph.shortest_path scipy.sparse.csgraph.connected_components sci
 scipy.optimize.linear_sum_assignment sklearn.metrics.pairwise.pairwise_distances sklearn.metrics.pairwise_distances
 scipy.spatial.distance.cityblock scipy.special.erfc scipy.stats.norm.cdf scipy.stats.norm.pdf
 scipy.stats.multivariate_normal.pdf scipy.stats.multivariate_normal.cdf
-operator.itemgetter operator.attrgetter os.environ.get
 """.split())
+
+# --- `out` accepted POSITIONALLY by functions of FRESH_FUNCS: index of the parameter.  A call with that many positional
+#     arguments writes the argument and returns it.  (ufuncs: index = number of inputs.)  Checked against the installed numpy's
+#     own signatures on every run (c19.self_test: `table_out_positions`).
+OUT_POS = {
+    # unary ufuncs
+    "np.abs": 1, "np.absolute": 1, "np.exp": 1, "np.log": 1, "np.sqrt": 1, "np.sin": 1, "np.cos": 1, "np.arcsin": 1,
+    "np.arccos": 1, "np.ceil": 1, "np.floor": 1, "np.isfinite": 1, "np.isinf": 1, "np.isnan": 1, "np.logical_not": 1,
+    "np.sign": 1, "np.square": 1, "np.expm1": 1, "np.log1p": 1, "np.log2": 1, "np.log10": 1, "np.tan": 1, "np.arctan": 1,
+    "np.sinh": 1, "np.cosh": 1, "np.tanh": 1, "np.negative": 1, "np.reciprocal": 1, "np.trunc": 1, "np.rint": 1, "np.fabs": 1,
+    # binary ufuncs
+    "np.maximum": 2, "np.minimum": 2, "np.multiply": 2, "np.divide": 2, "np.add": 2, "np.subtract": 2, "np.matmul": 2,
+    "np.power": 2, "np.logical_and": 2, "np.logical_or": 2, "np.arctan2": 2, "np.hypot": 2, "np.mod": 2, "np.remainder": 2,
+    "np.floor_divide": 2, "np.true_divide": 2,
+    # reductions and other functions with an `out` parameter
+    "np.sum": 3, "np.prod": 3, "np.mean": 3, "np.std": 3, "np.var": 3, "np.cumsum": 3, "np.nansum": 3, "np.clip": 3,
+    "np.max": 2, "np.min": 2, "np.amax": 2, "np.amin": 2, "np.any": 2, "np.all": 2, "np.argmax": 2, "np.argmin": 2,
+    "np.round": 2, "np.dot": 2, "np.outer": 2, "np.concatenate": 2, "np.stack": 2, "np.median": 2, "np.nanmax": 2,
+    "np.nanmin": 2, "np.trace": 5, "np.percentile": 3, "np.quantile": 3,
+}
+# --- `copy` accepted positionally (index); by keyword it is recognised on every function of FRESH_FUNCS / READONLY_FUNCS.
+#     `copy` anything but the literal True: the result may be the first argument itself, converted in place.
+COPY_POS = {"np.nan_to_num": 1, "np.ma.masked_less": 2}
+# --- keywords that let a routine use its inputs as scratch space (anything but the literal False: all arguments written)
+INPLACE_KW = set("overwrite overwrite_input overwrite_a overwrite_b overwrite_x overwrite_y inplace".split())
+# --- the same for methods of FRESH_METHODS (index among the method's own positional arguments)
+METHOD_OUT_POS = {"clip": 2, "sum": 2, "cumsum": 2, "prod": 2, "mean": 2, "std": 2, "var": 2, "dot": 1, "round": 1, "max": 1,
+                  "min": 1, "any": 1, "all": 1, "argmin": 1, "argmax": 1, "trace": 4}
+METHOD_COPY_POS = {"astype": 4}                # astype(dtype, order, casting, subok, copy)
+
+# --- functions returning a read-only accessor (calling it yields an element / attribute of its argument)
+GETTER_FUNCS = set("operator.itemgetter operator.attrgetter".split())
+
+# --- library-level state: function -> (name of the state, reads it, writes it); `warnings.warn` is not listed (warnings are not
+#     results).  plt.* is handled apart (the PYPLOT global).
+STATE_FUNCS = {
+    "np.seterr": ("numpy error state", True, True), "np.geterr": ("numpy error state", True, False),
+    "np.errstate": ("numpy error state", True, True), "np.seterrcall": ("numpy error state", True, True),
+    "np.set_printoptions": ("numpy print options", False, True), "np.get_printoptions": ("numpy print options", True, False),
+    "np.printoptions": ("numpy print options", True, True), "np.setbufsize": ("numpy error state", True, True),
+    "warnings.filterwarnings": ("warnings filters", False, True), "warnings.simplefilter": ("warnings filters", False, True),
+    "warnings.resetwarnings": ("warnings filters", False, True), "warnings.catch_warnings": ("warnings filters", True, True),
+    "os.environ.get": ("os.environ", True, False), "os.getenv": ("os.environ", True, False),
+    "os.putenv": ("os.environ", False, True), "os.unsetenv": ("os.environ", False, True),
+    "os.getcwd": ("working directory", True, False), "os.chdir": ("working directory", False, True),
+    "sys.setrecursionlimit": ("recursion limit", False, True), "sys.getrecursionlimit": ("recursion limit", True, False),
+    "time.time": ("clock", True, False), "time.perf_counter": ("clock", True, False), "time.monotonic": ("clock", True, False),
+    "time.process_time": ("clock", True, False), "datetime.datetime.now": ("clock", True, False),
+    "datetime.datetime.today": ("clock", True, False), "datetime.date.today": ("clock", True, False),
+    "os.urandom": ("os entropy", True, False), "os.getpid": ("process id", True, False),
+    "np.random.seed": ("numpy global generator", False, True), "np.random.set_state": ("numpy global generator", False, True),
+    "np.random.get_state": ("numpy global generator", True, False), "random.seed": ("python global generator", False, True),
+    "random.setstate": ("python global generator", False, True), "random.getstate": ("python global generator", True, False),
+}
+# --- library objects whose mere evaluation reads module-level state
+STATE_READS = {"os.environ": "os.environ", "sys.argv": "sys.argv", "sys.path": "sys.path", "plt.rcParams": "<pyplot>",
+               "mpl.rcParams": "<pyplot>"}
+PYPLOT_STATE_FUNCS = set("mpl.use mpl.rc mpl.rcdefaults mpl.rc_context mpl.interactive mpl.rc_file".split())
+
+# --- names of parameters / instance attributes documented as CALLER-SUPPLIED callables (PersistenceImager(weight=, kernel=),
+#     images._transform(weight, kernel)): calls through them are assumed read-only (ASSUMPTIONS).  A call through any other
+#     value the translator cannot resolve is an unknown call.
+CALLER_CALLABLES = set("weight kernel".split())
 
 # --- functions returning a VIEW / the very object (alias of their first argument); `np.array(x)` is handled apart
 VIEW_FUNCS = set("""
@@ -105,20 +167,43 @@ TABLE_DOC = [
      "operands' elements (list concatenation / repetition)"),
     ("copy+elem of the arguments (selection)", " ".join(sorted(SELECT_FUNCS))),
     ("write x (in-place mutation)", "`x[...] = v` (write x, store x v), `x op= v` on a name (write x) or on a subscript (write x, "
-     "write x[...]), `del x[...]`, `out=x`, assignment to array attributes " + " ".join(sorted(ARRAY_META_ATTRS)) + "; functions " +
+     "write x[...]), `del x[...]`, assignment to array attributes " + " ".join(sorted(ARRAY_META_ATTRS)) + "; functions " +
      " ".join("%s(arg %d)" % kv for kv in sorted(MUTATING_FUNCS.items())) + "; methods " + " ".join(sorted(MUTATOR_METHODS)) +
      " (inserting ones also `store`)"),
+    ("out / copy / overwrite arguments", "`out=x` by keyword on any call, or POSITIONALLY at the index of OUT_POS / METHOD_OUT_POS (" +
+     " ".join("%s:%d" % kv for kv in sorted(OUT_POS.items())) + "; methods " + " ".join("%s:%d" % kv for kv in sorted(METHOD_OUT_POS.items())) +
+     "): x (and, for `out=(x,)`, its element) is written and is the result; with *args every argument is taken as a possible out. "
+     "`copy=` anything but the literal True, by keyword on any fresh / read-only function or positionally (" +
+     " ".join("%s:%d" % kv for kv in sorted(COPY_POS.items())) + "; astype:4): the result may be the first argument itself, converted in "
+     "place (np.array(x, copy=False/None/variable) is np.asarray). Keywords " + " ".join(sorted(INPLACE_KW)) +
+     " not literally False: every argument written. The positions are checked against the installed numpy on every run"),
     ("setattr y v", "`y.attr = v` on any other attribute (instances are not arrays or lists; methods may update their object); "
      "assignments to a property with a persim setter inline the setter"),
     ("matplotlib handles", "parameters named " + " ".join(sorted(HANDLE_PARAMS)) + " and every result of plt.* are handles (fresh site, "
      "not caller-owned); methods " + " ".join(sorted(HANDLE_METHODS)) + " and set_*/get_* write the receiver and may store the arguments; "
      "plt.* reads and writes the global PYPLOT"),
     ("rng", "np.random.* (np.random.shuffle also writes its argument)"),
-    ("persim calls", "functions, methods (self., super()., Class., by method name on unknown receivers), constructors, nested "
-     "functions, lambdas and `delayed(f)(...)` are inlined per call site (fresh variables and sites per call site)"),
-    ("callbacks", "calls through caller-supplied callables (parameters / attributes such as `weight`, `kernel`, `key=`) are assumed "
-     "read-only; result fresh or an alias of an argument"),
-    ("unknown calls", "result may alias any argument or be fresh; every argument and the receiver are written"),
+    ("persim calls", "functions, methods (self., super()., Class., by method name on unknown receivers; a method `self`'s class "
+     "leaves to its subclasses: every persim method of that name), constructors, nested functions, lambdas and `delayed(f)(...)` are "
+     "inlined per call site (fresh variables and sites per call site)"),
+    ("function values", "a variable may hold function values: persim functions / lambdas / nested defs, external or builtin functions "
+     "(`g = np.fill_diagonal`), persim classes, BOUND METHODS (`s = a.sort`, `getattr(a, 'sort')`, `getattr(a, name)`), "
+     "operator.itemgetter / attrgetter accessors, np.vectorize(f). A call through the variable applies every function value it "
+     "holds (a bound method as the method call it stands for). `map(f, xs)` / `filter(f, xs)` apply f to the elements, `key=` of "
+     "sorted / min / max / list.sort is applied to the elements, a vectorized function to the elements of its arguments"),
+    ("caller-supplied callables", "ONLY the parameters / instance attributes named " + " ".join(sorted(CALLER_CALLABLES)) +
+     " (documented as callables supplied by the caller) are assumed read-only when called; result fresh or an alias of an argument"),
+    ("unknown calls", "a call through anything else the translator cannot resolve (an unlisted library function, a method name in no "
+     "table on an unknown receiver, a parameter / attribute / call result used as a function, recursion): HAVOC — every object "
+     "reachable from the arguments and from the receiver / bound object may be written and linked to any other, the result is any "
+     "of them or fresh, function-valued arguments may be called on anything reachable, module-level state may be read and written"),
     ("globals", "module-level data names: readGlobal (value caller-visible, i.e. OWNED) unless listed as constants in policy.json; "
-     "`global x; x = …` writeGlobal; mutable default arguments are caller-visible (OWNED); verification hooks `_VERIF_*` are skipped"),
+     "`global x; x = …` writeGlobal; mutable default arguments are caller-visible (OWNED); verification hooks `_VERIF_*` are skipped. "
+     "CLASS attributes (`C.x`, `type(self).x`, `self.__class__.x`; dunder names excepted), FUNCTION attributes (`f.calls`), attributes / "
+     "items of modules and library objects (`os.environ[k] = v`, `np.core.x = v`; matplotlib's are the PYPLOT global) are module-level "
+     "state: reads readGlobal, stores writeGlobal. Library state functions: " +
+     " ".join("%s(%s%s:%s)" % (k, "r" if v[1] else "", "w" if v[2] else "", v[0].replace(" ", "_")) for k, v in sorted(STATE_FUNCS.items())) +
+     "; evaluating " + " ".join(sorted(STATE_READS)) + " is a read"),
+    ("loops", "a loop body (and a comprehension) is re-translated until the version sets of the names are stable; not stable after "
+     "8 passes: TranslatorError (the entry point then gets a deliberately failing obligation)"),
 ]
